@@ -126,7 +126,7 @@ func KeysOf(name string, args [][]byte) [][]byte {
 		}
 		return nil
 	}
-	if _, known := keyspec.Table[name]; known {
+	if keyspec.Known(name) {
 		return nil
 	}
 	if len(args) > 0 {
